@@ -1,4 +1,197 @@
+/-
+  C18 — rule arguments, file names and chain offsets resolve consistently.
+
+  Model: `Crs.Update.parseRuleId` (cmd/regex.go: parseRuleId; regex/definitions.go: RuleIdFileNameRegex;
+  strconv.ParseUint(_, 10, 8)). Root resolution and the equality of stdin and file input are
+  checked on the binary (correspondence row K10); the grammar is proved here.
+-/
 import Crs.Update
+import CrsProofs.Lines
 namespace Crs.Props
-theorem C18_placeholder : True := trivial
+open Crs Crs.Update
+
+/-- the accepted shapes, written out: six digits, optionally `-chain` + digits, optionally `.ra` -/
+def argOf (id : Bytes) (chain : Option Bytes) (ext : Bool) : Bytes :=
+  id ++ ((match chain with | some ds => chainKw ++ ds | none => []) ++ (if ext then raExt else []))
+
+def IsId (id : Bytes) : Prop := id.length = 6 ∧ id.all isDigit = true
+def IsDigits (ds : Bytes) : Prop := ds ≠ [] ∧ ds.all isDigit = true
+
+private theorem take6_append (id rest : Bytes) (h : id.length = 6) : (id ++ rest).take 6 = id := by
+  rw [List.take_append_of_le_length (by omega)]; exact List.take_of_length_le (by omega)
+
+private theorem drop6_append (id rest : Bytes) (h : id.length = 6) : (id ++ rest).drop 6 = rest := by
+  rw [List.drop_append_of_le_length (by omega), List.drop_of_length_le (by omega)]; rfl
+
+private theorem takeWhile_digits_append (ds rest : Bytes) (hd : ds.all isDigit = true)
+    (hr : ∀ c, rest.head? = some c → isDigit c = false) :
+    (ds ++ rest).takeWhile isDigit = ds ∧ (ds ++ rest).dropWhile isDigit = rest := by
+  induction ds with
+  | nil =>
+    cases rest with
+    | nil => simp
+    | cons c cs =>
+      have := hr c rfl
+      simp [List.takeWhile, List.dropWhile, this]
+  | cons d ds ih =>
+    simp only [List.all_cons, Bool.and_eq_true] at hd
+    obtain ⟨ih1, ih2⟩ := ih hd.2
+    simp [List.takeWhile, List.dropWhile, hd.1, ih1, ih2]
+
+private theorem hasSuffix_append_self (s x : Bytes) : hasSuffix s (x ++ s) = true := by
+  simp [hasSuffix, List.reverse_append]
+
+/-- a text whose last character is a digit does not end in `.ra` -/
+private theorem not_hasSuffix_ra_of_digit_last (x : Bytes) (c : Char) (h : x.getLast? = some c) (hc : isDigit c = true) :
+    hasSuffix raExt x = false := by
+  obtain ⟨ys, rfl⟩ := List.getLast?_eq_some_iff.mp h
+  have : c ≠ 'a' := by intro e; subst e; exact absurd hc (by decide)
+  simp [hasSuffix, raExt, List.reverse_append, List.isPrefixOf, this]
+  intro e; exact absurd e.symm this
+
+private theorem all_getLast {x : Bytes} {c : Char} (h : x.getLast? = some c) (ha : x.all isDigit = true) : isDigit c = true := by
+  have := List.mem_of_getLast? h
+  exact List.all_eq_true.mp ha c this
+
+private theorem exists_last {x : Bytes} (h : x ≠ []) : ∃ c, x.getLast? = some c := by
+  cases hx : x.getLast? with
+  | none => exact absurd (List.getLast?_eq_none_iff.mp hx) h
+  | some c => exact ⟨c, rfl⟩
+
+/-- the chain part is recognised: digits after `-chain`, up to the first non-digit -/
+theorem splitChain_chain (ds rest : Bytes) (hds : IsDigits ds) (hr : ∀ c, rest.head? = some c → isDigit c = false) :
+    splitChain (chainKw ++ (ds ++ rest)) = (some ds, rest) := by
+  unfold splitChain
+  rw [stripPrefix?_append]
+  obtain ⟨t1, t2⟩ := takeWhile_digits_append ds rest hds.2 hr
+  have : ds.isEmpty = false := by cases ds with | nil => exact absurd rfl hds.1 | cons _ _ => rfl
+  simp only [t1, t2, this, Bool.false_eq_true, if_false]
+
+theorem splitChain_none_nil : splitChain [] = (none, []) := by decide
+theorem splitChain_none_ra : splitChain raExt = (none, raExt) := by decide
+
+theorem fileNameFor_noext (x : Bytes) (c : Char) (h : x.getLast? = some c) (hc : isDigit c = true) :
+    fileNameFor x = x ++ raExt := by
+  unfold fileNameFor; rw [not_hasSuffix_ra_of_digit_last x c h hc]; simp
+
+theorem fileNameFor_ext (x : Bytes) : fileNameFor (x ++ raExt) = x ++ raExt := by
+  unfold fileNameFor; rw [hasSuffix_append_self]; simp
+
+/-- **C18 (accepted arguments).** Every argument of the documented shape with an offset of at most 255
+    resolves to exactly: rule id = the six digits, file name = the argument with `.ra` (added when absent,
+    the offset in its own spelling), chain offset = the decimal value (0 when absent). -/
+theorem C18_accepts (id : Bytes) (hid : IsId id) (ext : Bool) :
+    parseRuleId (argOf id none ext) = .ok ⟨id, id ++ raExt, 0⟩ ∧
+    ∀ ds, IsDigits ds → digitsVal ds ≤ 255 →
+      parseRuleId (argOf id (some ds) ext) = .ok ⟨id, id ++ (chainKw ++ ds) ++ raExt, digitsVal ds⟩ := by
+  obtain ⟨hlen, hdig⟩ := hid
+  have hidc : (!(id.length == 6 && id.all isDigit)) = false := by simp [hlen, hdig]
+  have hidne : id ≠ [] := by intro e; simp [e] at hlen
+  obtain ⟨ci, hci⟩ := exists_last hidne
+  constructor
+  · cases ext
+    · simp only [argOf, Bool.false_eq_true, if_false, List.append_nil]
+      unfold parseRuleId
+      rw [List.take_of_length_le (by omega), List.drop_of_length_le (by omega), hidc, splitChain_none_nil]
+      simp only [Bool.false_eq_true, if_false]
+      rw [fileNameFor_noext id ci hci (all_getLast hci hdig)]
+      simp
+    · simp only [argOf, if_true, List.nil_append]
+      unfold parseRuleId
+      rw [take6_append id _ hlen, drop6_append id _ hlen, hidc, splitChain_none_ra, fileNameFor_ext]
+      simp
+  · intro ds hds hval
+    have hle : ¬ (digitsVal ds > 255) := by omega
+    obtain ⟨cd, hcd⟩ := exists_last hds.1
+    cases ext
+    · simp only [argOf, Bool.false_eq_true, if_false, List.append_nil]
+      unfold parseRuleId
+      rw [take6_append id _ hlen, drop6_append id _ hlen, hidc]
+      have := splitChain_chain ds [] hds (by simp)
+      rw [List.append_nil] at this
+      rw [this]
+      simp only [Bool.false_eq_true, if_false, hle]
+      have hl : (id ++ (chainKw ++ ds)).getLast? = some cd := by
+        rw [List.getLast?_append, List.getLast?_append, hcd]; rfl
+      rw [fileNameFor_noext _ cd hl (all_getLast hcd hds.2)]
+      simp
+    · simp only [argOf, if_true]
+      unfold parseRuleId
+      rw [take6_append id _ hlen, drop6_append id _ hlen, hidc]
+      rw [List.append_assoc, splitChain_chain ds raExt hds (by simp [raExt, isDigit])]
+      simp only [Bool.false_eq_true, if_false, hle]
+      have : id ++ (chainKw ++ (ds ++ raExt)) = (id ++ (chainKw ++ ds)) ++ raExt := by simp [List.append_assoc]
+      rw [this, fileNameFor_ext]
+      simp
+
+/-- **C18 (no wrap-around).** An offset above 255 is rejected, whatever its length, with or without `.ra`. -/
+theorem C18_rejects_large_offset (id : Bytes) (hid : IsId id) (ds : Bytes) (hds : IsDigits ds) (ext : Bool)
+    (hbig : digitsVal ds > 255) : parseRuleId (argOf id (some ds) ext) = .error .diag := by
+  obtain ⟨hlen, hdig⟩ := hid
+  have hidc : (!(id.length == 6 && id.all isDigit)) = false := by simp [hlen, hdig]
+  cases ext
+  · simp only [argOf, Bool.false_eq_true, if_false, List.append_nil]
+    unfold parseRuleId
+    rw [take6_append id _ hlen, drop6_append id _ hlen, hidc]
+    have := splitChain_chain ds [] hds (by simp)
+    rw [List.append_nil] at this
+    rw [this]
+    simp [hbig]
+  · simp only [argOf, if_true]
+    unfold parseRuleId
+    rw [take6_append id _ hlen, drop6_append id _ hlen, hidc]
+    rw [List.append_assoc, splitChain_chain ds raExt hds (by simp [raExt, isDigit])]
+    simp [hbig]
+
+/-- **C18 (nothing else is accepted).** Whatever is accepted: the id is the first six characters, all of
+    them digits; the offset is at most 255 (no wrap-around, no truncation); the file name is the argument
+    itself, with `.ra` appended exactly when it does not end in it already. -/
+theorem C18_sound (a : Bytes) (r : RuleArg) (h : parseRuleId a = .ok r) :
+    r.id = a.take 6 ∧ r.id.length = 6 ∧ r.id.all isDigit = true ∧ r.chainOffset ≤ 255 ∧
+    r.fileName = fileNameFor a := by
+  unfold parseRuleId at h
+  split at h
+  · simp at h
+  · rename_i hidc
+    have hidc' : (a.take 6).length = 6 ∧ (a.take 6).all isDigit = true := by
+      simpa using hidc
+    split at h
+    split at h
+    · simp at h
+    · split at h
+      · simp only [Except.ok.injEq] at h
+        subst h
+        exact ⟨rfl, hidc'.1, hidc'.2, by simp, rfl⟩
+      · split at h
+        · simp at h
+        · rename_i hle
+          simp only [Except.ok.injEq] at h
+          subst h
+          exact ⟨rfl, hidc'.1, hidc'.2, by simp only; omega, rfl⟩
+
+/-- what follows the six digits of an accepted argument is nothing, `.ra`, or a chain part followed by nothing or `.ra` -/
+theorem C18_sound_tail (a : Bytes) (r : RuleArg) (h : parseRuleId a = .ok r) :
+    (splitChain (a.drop 6)).2 = [] ∨ (splitChain (a.drop 6)).2 = raExt := by
+  unfold parseRuleId at h
+  split at h
+  · simp at h
+  · split at h
+    rename_i offs rest' heq
+    split at h
+    · simp at h
+    · rename_i hend
+      rw [heq]
+      simp only [Bool.not_eq_true, Bool.not_eq_false', Bool.or_eq_true, List.isEmpty_iff, beq_iff_eq] at hend
+      simpa using hend
+
+/-- non-vacuity and the boundary cases the property names -/
+example :
+    parseRuleId "942100-chain255.ra".toList = .ok ⟨"942100".toList, "942100-chain255.ra".toList, 255⟩ ∧
+    parseRuleId "942100-chain256".toList = .error .diag ∧
+    parseRuleId "942100-chain007".toList = .ok ⟨"942100".toList, "942100-chain007.ra".toList, 7⟩ ∧
+    parseRuleId "94210".toList = .error .diag ∧ parseRuleId "9421000".toList = .error .diag ∧
+    parseRuleId "942100-chain".toList = .error .diag ∧ parseRuleId "942100.raa".toList = .error .diag ∧
+    parseRuleId "942100-chain99999999999999999999".toList = .error .diag := by
+  decide
+
 end Crs.Props
